@@ -373,6 +373,22 @@ Definition optZ_eqb (a b : option Z) : bool :=
          "eventually(self.connector.connectorNegotiationFailed, self, self.factory.location, reason)" in nf,
          "negotiationFailed no longer tells the connector")
 
+    # ---- the server side's own negotiation timer (virtual time in the model: lib/Converge.v do_advance)
+    ncls = P.find_class(mod, "Negotiation")
+    nconsts = P.module_consts(mod, body=ncls.body)
+    need(isinstance(nconsts.get("SERVER_TIMEOUT"), int), "Negotiation.SERVER_TIMEOUT is not an integer literal")
+    out.append("Definition SERVER_TIMEOUT : Z := %d." % nconsts["SERVER_TIMEOUT"])
+    cms = un(P.find_def(mod, "Negotiation.connectionMadeServer"))
+    need("timeout = self._test_options.get('server_timeout', self.SERVER_TIMEOUT)" in cms and
+         "self.negotiationTimer = reactor.callLater(timeout, self.negotiationTimedOut)" in cms,
+         "connectionMadeServer no longer arms the negotiation timer")
+    need("negotiationTimer" not in un(P.find_def(mod, "Negotiation.connectionMadeClient")),
+         "connectionMadeClient now arms a negotiation timer")
+    nto = un(P.find_def(mod, "Negotiation.negotiationTimedOut"))
+    need("self.transport.loseConnection()" in nto, "negotiationTimedOut no longer closes the connection")
+    need("self.stopNegotiationTimer()" in sw and "self.stopNegotiationTimer()" in nf,
+         "the negotiation timer is no longer stopped by switchToBanana / negotiationFailed")
+
     # ---- broker.py: shutdown detaches at once; parameters kept for the comparison
     bm = P.load("broker.py")
     sd = un(P.find_def(bm, "Broker.shutdown"))
@@ -384,6 +400,7 @@ Definition optZ_eqb (a b : option Z) : bool :=
     need("self.current_slave_IR = params.get('current-slave-IR')" in bi and
          "self.current_seqnum = params.get('current-seqnum')" in bi, "Broker no longer keeps slave IR / seqnum")
     need("self.finish(why)" in un(P.find_def(bm, "Broker.connectionLost")), "Broker.connectionLost no longer finishes")
+    need("self.creation_timestamp = time.time()" in bi, "Broker.__init__ no longer records its creation time")
 
     # ---- connection.py
     cm = P.load("connection.py")
